@@ -527,6 +527,7 @@ class Parser:
         params = self.where(params)
         self.expect('{')
         fns = []
+        consts = []
         while not self.eat('}'):
             a = self.attrs()
             fl = self.t.line
@@ -535,10 +536,20 @@ class Parser:
                 self.skip_balanced_item()
                 continue
             p = self.visibility()
-            if self.at_kw('type') or (self.at_kw('const') and self.peek().val not in ('fn', 'unsafe')):
-                self.err("associated types/consts are not supported")
+            if self.at_kw('type'):
+                self.err("associated types are not supported")
+            if self.at_kw('const') and self.peek().val not in ('fn', 'unsafe'):
+                self.p += 1
+                cname = self.ident()
+                self.expect(':')
+                cty = self.type()
+                self.expect('=')
+                cval = self.expr()
+                self.expect(';')
+                consts.append(Node('const', fl, name=cname, ty=cty, value=cval, pub=p))
+                continue
             fns.append(self.fn(fl, p, a))
-        return Node('impl', line, params=params, trait=trait, ty=ty, fns=fns, attrs=attrs)
+        return Node('impl', line, params=params, trait=trait, ty=ty, fns=fns, attrs=attrs, consts=consts)
 
     def trait(self, line, pub):
         name = self.ident()
